@@ -1518,6 +1518,99 @@ void own_cases()
             }
         }
     }
+    // ---- wide integers: 64-bit values that no double represents (beyond 2^53) assigned to integer and integer-pair parameters through the
+    // integer overloads AND as decimal strings (the configuration-string / command-line path); a value enters TLC as three 21-bit words
+    // of v + 2^62 (exact, lexicographically ordered)
+    {
+        vt::put(vt::J("Reset").s("factory", "own:wideint").s("id", "int64").i("a", -1).i("b", -1));
+        const int64_t two53 = int64_t{1} << 53U;
+        const int64_t two62 = int64_t{1} << 62U;
+        const auto    words = [&](const int64_t v)
+        {
+            const auto u = static_cast<uint64_t>(v) + static_cast<uint64_t>(two62);
+            return std::vector<int64_t>{static_cast<int64_t>(u >> 42U), static_cast<int64_t>((u >> 21U) & 0x1FFFFFU), static_cast<int64_t>(u & 0x1FFFFFU)};
+        };
+        const std::vector<int64_t> candidates{0, 7, -7, two53 - 1, two53, two53 + 1, two53 + 3, -(two53 + 1), -(two53 + 3), 1234567890123456789LL,
+                                              -1234567890123456789LL, two62 - 1, two62 - 3, -(two62 - 1), 4611686018427387001LL, 9007199254740993LL * 3};
+        struct wdom_t
+        {
+            int64_t lo, hi;
+        };
+        const std::vector<wdom_t> wdoms{{-(two62 - 1), two62 - 1}, {two53 + 1, two62 - 3}, {-(two53 + 3), two53 + 3}};
+        for (const auto& dom : wdoms)
+        {
+            for (int flags = 0; flags < 4; ++flags)
+            {
+                const bool minLE = (flags & 1) != 0, maxLE = (flags & 2) != 0;
+                const auto def   = dom.lo / 2 + dom.hi / 2;
+                for (const auto v : candidates)
+                {
+                    for (const bool as_string : {false, true})
+                    {
+                        auto param = parameter_t::make_integer("w", dom.lo, comp(minLE), def, comp(maxLE), dom.hi);
+                        bool threw = false;
+                        try
+                        {
+                            if (as_string)
+                            {
+                                param = std::to_string(v);
+                            }
+                            else
+                            {
+                                param = v;
+                            }
+                        }
+                        catch (const std::exception&)
+                        {
+                            threw = true;
+                        }
+                        const auto after = param.value<int64_t>();
+                        vt::put(vt::J("WideInt").b("pair", false).b("string", as_string).b("minLE", minLE).b("maxLE", maxLE).b("valLE", true).a("lo", words(dom.lo))
+                                    .a("hi", words(dom.hi)).aa("before", std::vector<std::vector<int64_t>>{words(def)})
+                                    .aa("given", std::vector<std::vector<int64_t>>{words(v)}).aa("after", std::vector<std::vector<int64_t>>{words(after)})
+                                    .b("threw", threw).s("text", std::to_string(v)));
+                    }
+                }
+                // pairs: neighbours beyond 2^53 (equal once rounded to double), in both orders, with <= and <
+                for (const bool valLE : {false, true})
+                {
+                    const std::vector<std::pair<int64_t, int64_t>> pairs{{two53, two53 + 1}, {two53 + 1, two53}, {two53 + 1, two53 + 1}, {two53 + 1, two53 + 3},
+                                                                         {two62 - 3, two62 - 1}, {-(two53 + 3), -(two53 + 1)}, {dom.lo, dom.hi}, {1, 2}};
+                    for (const auto& [v1, v2] : pairs)
+                    {
+                        for (const bool as_string : {false, true})
+                        {
+                            const auto d1    = dom.lo / 2 + dom.hi / 2;
+                            const auto d2    = d1 + 1;
+                            auto       param = parameter_t::make_integer_pair("w", dom.lo, comp(minLE), d1, comp(valLE), d2, comp(maxLE), dom.hi);
+                            bool       threw = false;
+                            try
+                            {
+                                if (as_string)
+                                {
+                                    param = std::to_string(v1) + "," + std::to_string(v2);
+                                }
+                                else
+                                {
+                                    param = std::make_tuple(v1, v2);
+                                }
+                            }
+                            catch (const std::exception&)
+                            {
+                                threw = true;
+                            }
+                            const auto [a1, a2] = param.value_pair<int64_t>();
+                            vt::put(vt::J("WideInt").b("pair", true).b("string", as_string).b("minLE", minLE).b("maxLE", maxLE).b("valLE", valLE).a("lo", words(dom.lo))
+                                        .a("hi", words(dom.hi)).aa("before", std::vector<std::vector<int64_t>>{words(d1), words(d2)})
+                                        .aa("given", std::vector<std::vector<int64_t>>{words(v1), words(v2)})
+                                        .aa("after", std::vector<std::vector<int64_t>>{words(a1), words(a2)}).b("threw", threw)
+                                        .s("text", std::to_string(v1) + "," + std::to_string(v2)));
+                        }
+                    }
+                }
+            }
+        }
+    }
     // ---- a configurable object of the driver's own: registration (duplicate names throw and leave the object as it was), config(...)
     {
         const int64_t obj = 900000;
